@@ -21,7 +21,7 @@ if __name__ == "__main__":
     limit = int(sys.argv[2]) if len(sys.argv) > 2 else 10**9
     only = sys.argv[3] if len(sys.argv) > 3 else ""
     tasks = []
-    rnd = random.Random(1)
+    rnd = random.Random(int(os.environ.get("XSEED", "1")))
     for key, c in reg.items():
         if key.startswith("ghost:") or not c.cases or not X.eligible(c) or only not in key:
             continue
